@@ -59,7 +59,21 @@ func checkPair(c pairCase) (bool, string, string, string) {
 		return true
 	}
 	exist := func(t *triple.Triple) bool { ok, _ := g.Exist(model.Ctx, t); return ok }
-	count := func() int { ts, _ := model.ListTriples(g, storage.DefaultLookup); return len(ts) }
+	kx, ky := model.TripleKey(tx), model.TripleKey(ty)
+	listingOK := true // the listing holds the right triples, not only the right number of them
+	count := func(want ...string) int {
+		ts, _ := model.ListTriples(g, storage.DefaultLookup)
+		got := map[string]int{}
+		for _, t := range ts {
+			got[model.TripleKey(t)]++
+		}
+		for _, w := range want {
+			if got[w] != 1 {
+				listingOK = false
+			}
+		}
+		return len(ts)
+	}
 	var got [6]int
 	b2i := func(b bool) int {
 		if b {
@@ -73,9 +87,18 @@ func checkPair(c pairCase) (bool, string, string, string) {
 		step("add x", func() error { return g.AddTriples(model.Ctx, []*triple.Triple{tx}) })
 		got[0] = b2i(exist(ty))
 		step("add y", func() error { return g.AddTriples(model.Ctx, []*triple.Triple{ty}) })
-		got[1] = count()
+		if same {
+			got[1] = count(kx)
+		} else {
+			got[1] = count(kx, ky)
+		}
 		step("remove x", func() error { return g.RemoveTriples(model.Ctx, []*triple.Triple{tx}) })
-		got[2], got[3], got[4] = b2i(exist(tx)), b2i(exist(ty)), count()
+		got[2], got[3] = b2i(exist(tx)), b2i(exist(ty))
+		if same {
+			got[4] = count()
+		} else {
+			got[4] = count(ky)
+		}
 	}); p != nil {
 		return false, class, "panic", fmt.Sprintf("%s vs %s in position %s: panic %v", c.X.Short(), c.Y.Short(), c.Pos, p)
 	}
@@ -86,8 +109,11 @@ func checkPair(c pairCase) (bool, string, string, string) {
 	if same {
 		want = [6]int{1, 1, 0, 0, 0}
 	}
-	if got == want {
+	if got == want && listingOK {
 		return true, "", "", ""
+	}
+	if got == want {
+		return false, class, "listing-holds-other-triples-than-stored", fmt.Sprintf("triples differing only in position %s: %s vs %s: the listing has the right number of entries but not the stored triples (one listed twice, the other missing)", c.Pos, c.X.Short(), c.Y.Short())
 	}
 	shape := "two-values-not-kept-apart"
 	if same {
